@@ -481,6 +481,63 @@ pub fn run(ctx: &'static Ctx) {
             ctx.tr(steps0);
             ctx.engine("E3.value-programs", json!({"programs": 2 * progs.len(), "value_set_sizes": {"u8": 256, "u16": v16.len(), "u32": v32.len(), "u64": v64.len()}, "write_offsets": [9, 10, 36, 37, 56, 60, 62, 63]}));
         }
+        // signatures (the value principle for a four-byte identifier): every signature the ACPI specification and its
+        // companions define, as the constructor's signature and written over "TEST" in place (bytes / one dword), each
+        // followed by the small tail: the generic table treats every signature alike
+        {
+            const SIGS: &[&[u8; 4]] = &[
+                b"APIC", b"BERT", b"BGRT", b"CPEP", b"DSDT", b"ECDT", b"EINJ", b"ERST", b"FACP", b"FACS", b"FPDT", b"GTDT", b"HEST", b"MSCT", b"MPST", b"NFIT", b"PCCT", b"PHAT", b"PMTT", b"PPTT", b"RASF", b"RAS2", b"RSDT",
+                b"SBST", b"SDEV", b"SLIT", b"SRAT", b"SSDT", b"XSDT", b"AEST", b"BDAT", b"CEDT", b"CRAT", b"CSRT", b"DBGP", b"DBG2", b"DMAR", b"DRTM", b"ETDT", b"HPET", b"IBFT", b"IORT", b"IVRS", b"LPIT", b"MCFG", b"MCHI",
+                b"MPAM", b"MSDM", b"PRMT", b"RGRT", b"SDEI", b"SLIC", b"SPCR", b"SPMI", b"STAO", b"SWFT", b"TCPA", b"TPM2", b"UEFI", b"WAET", b"WDAT", b"WDDT", b"WDRT", b"WPBT", b"WSMT", b"XENV", b"VIOT", b"RHCT", b"RIMT",
+                b"RQSC", b"MADT", b"FADT", b"RSD ", b"OEM1", b"\0\0\0\0", b"    ", b"\xff\xff\xff\xff", b"facs", b"Facs", b"FACs", b"_SB_",
+            ];
+            let nsig = AtomicU64::new(0);
+            SIGS.par_iter().for_each(|sig| {
+                for len in [36u32, 40, 64] {
+                    let r = catch(|| {
+                        let mut t = Sdt::new(**sig, len, 7, *b"VERIF1", *b"VERIFTBL", 0x0403_0201);
+                        let mut m = Model::new(len);
+                        m.0[0..4].copy_from_slice(&sig[..]);
+                        m.fix();
+                        let mut first = true;
+                        for (i, op) in std::iter::once(SOp::UpdateChecksum).chain(tail()).enumerate() {
+                            if !first || t.as_slice() == &m.0[..] {
+                                let refused = catch(|| apply(&mut t, &op)).is_err();
+                                let accepted = m.step(&op);
+                                if refused == accepted || t.as_slice() != &m.0[..] {
+                                    return Some((i, kind(&op)));
+                                }
+                            } else {
+                                return Some((0, "new"));
+                            }
+                            first = false;
+                        }
+                        None
+                    });
+                    nsig.fetch_add(1, std::sync::atomic::Ordering::Relaxed);
+                    let name = String::from_utf8_lossy(&sig[..]).to_string();
+                    match r {
+                        Ok(None) => {}
+                        Ok(Some((i, k))) => {
+                            ctx.violation_sized(&format!("sdt:{}:signature", k), i as u64, || format!("Sdt with signature {:?} and length {}: after step #{} ({}) the table differs from the vector model", name, len, i, k), || json!({"family":"sdt-signature","signature":name,"len":len,"at":i}));
+                        }
+                        Err(msg) => {
+                            ctx.violation("sdt:new:signature", || format!("Sdt with signature {:?} and length {} panicked: {}", name, len, msg), || json!({"family":"sdt-signature","signature":name,"len":len}));
+                        }
+                    }
+                }
+                // written in place over another signature
+                for via in 0..2 {
+                    let w = if via == 0 { SOp::WriteBytes(0, sig.to_vec()) } else { SOp::WriteU32(0, u32::from_le_bytes(**sig)) };
+                    let mut ops = vec![SOp::AppendU32(0x0102_0304), w];
+                    ops.extend(tail());
+                    lock(format!("signature {:?} written in place ({})", String::from_utf8_lossy(&sig[..]), if via == 0 { "bytes" } else { "dword" }), 40, ops, 1);
+                    nsig.fetch_add(1, std::sync::atomic::Ordering::Relaxed);
+                }
+            });
+            ctx.tr(nsig.load(std::sync::atomic::Ordering::Relaxed) * 9);
+            ctx.engine("E3.signatures", json!({"signatures": SIGS.len(), "programs": nsig.load(std::sync::atomic::Ordering::Relaxed)}));
+        }
         let sizes: Vec<usize> = (0..=1100usize).chain([2047, 2048, 2049, 4095, 4096, 4097, 8192, 16_384, 32_768, 65_499, 65_500, 65_535, 65_536, 65_537, 70_000, 300_000]).collect();
         let steps: u64 = sizes
             .par_iter()
